@@ -100,8 +100,11 @@ def draw_scenario(cs, cfg):
     nops = cs.randint(1, 4, "nops")
     ops = []
     res_plain = []     # per live result: produced without a substituting harness nest?
+    res_order = []     # per live result: derivative order (the statement goes up to the double backward; a third
+                       # graph-recording pass through quad costs minutes and adds no mechanism)
     for i in range(nops):
         cands = list(range(len(res_plain))) if sc["allow_ctx_mismatch"] else [j for j, ok in enumerate(res_plain) if ok]
+        cands = [j for j in cands if res_order[j] < 2]
         if i > 0 and cs.bool("user_edit", 1, 8):
             # between two calls the caller rebinds one tensor attribute of its object (e.g. unties two names that
             # shared a tensor): from then on THAT is the state every later call has to preserve
@@ -123,8 +126,10 @@ def draw_scenario(cs, cfg):
         subst = any(k != "identical" for k in op["nest"])
         if op["op"] == "FWD":
             res_plain.append(not subst)
+            res_order.append(0)
         elif op["cg"]:
             res_plain.append(res_plain[op["i"]] and not subst)
+            res_order.append(res_order[op["i"]] + 1)
         op["seed"] = cs.draw(1000, "opseed")
         ops.append(op)
     sc["ops"] = ops
